@@ -16,7 +16,8 @@ import time
 VERIF = os.path.dirname(os.path.dirname(os.path.dirname(os.path.abspath(__file__))))
 REPO = os.path.abspath(os.environ.get("VERIF_REPO", "/repo"))
 WORK = os.environ.get("VERIF_WORK", os.path.join(VERIF, "work"))
-TARGET = os.path.join(WORK, "target")
+# (VERIF_TARGET: monitor validation against scratch copies builds into a directory of its own that is removed afterwards)
+TARGET = os.environ.get("VERIF_TARGET") or os.path.join(WORK, "target")
 NCPU = os.cpu_count() or 4
 
 EXIT_OK, EXIT_VIOLATION, EXIT_INCONCLUSIVE = 0, 1, 2
